@@ -473,7 +473,7 @@ def emit_function(root, c, mode, extra_fmt_fns):
     text += sig + '\n' + (spec + '\n' if spec else '') + body + '\n'
     if fn.impl_type and not fn.impl_trait:
         text = f'impl {fn.impl_type} {{\n{text}}}\n'
-    elif fn.impl_trait and mode == 'vacuity':
+    elif fn.impl_trait and (mode == 'vacuity' or ctx.inherent):
         text = f'impl {fn.impl_type} {{\n{text}}}\n'
     elif fn.impl_trait:
         text = f'impl {fn.impl_trait} for {fn.impl_type} {{\n{text}}}\n'
@@ -506,6 +506,27 @@ def _add_false_ensures(spec):
     else:
         lines.insert(idx, add)
     return '\n'.join(lines)
+
+
+def emit_dbgtable(root, rel, name):
+    """spec table of #[derive(Debug)] on a field-less enum: the variant identifiers (std: the derived Debug of a unit variant writes its name)"""
+    text, l0, l1 = lookup_type(root, rel, name)
+    with open(os.path.join(root, rel), encoding='utf-8') as f:
+        src = f.read()
+    m = re.search(r'#\[derive\(([^)]*)\)\]\s*(?:pub\s+)?enum\s+' + re.escape(name) + r'\b', src)
+    if not m or 'Debug' not in [x.strip() for x in m.group(1).split(',')]:
+        raise ExtractError(f'dbgtable: `{name}` in {rel} does not derive Debug (lost anchor)')
+    if re.search(r'impl\s+(?:std\s*::\s*)?(?:fmt\s*::\s*)?Debug\s+for\s+' + re.escape(name) + r'\b', src):
+        raise ExtractError(f'dbgtable: hand-written Debug for {name}')
+    body = text[text.index('{') + 1:text.rindex('}')]
+    body = re.sub(r'//[^\n]*', '', body)
+    body = re.sub(r'/\*.*?\*/', '', body, flags=re.S)
+    variants = [v.strip() for v in body.split(',') if v.strip()]
+    for v in variants:
+        if not re.match(r'^[A-Za-z_]\w*$', v):
+            raise ExtractError(f'dbgtable: variant `{v}` of {name} is not a unit variant')
+    arms = ', '.join(f'{name}::{v} => "{v}"@' for v in variants)
+    return (f'pub open spec fn dbg_{name}(x: {name}) -> Seq<char> {{\n    match x {{ {arms} }}\n}}\n', (rel, l0, l1))
 
 
 def emit_type(root, rel, name):
